@@ -16,6 +16,7 @@ import os
 import shutil as _real_shutil
 
 VROOT = "/sim"
+SUT_SRC = os.path.realpath(os.environ.get("SIMCKL_SRC", "/repo/src"))
 
 ERRNOS = {
     "ENOENT": errno.ENOENT, "EACCES": errno.EACCES, "EISDIR": errno.EISDIR,
@@ -38,6 +39,14 @@ def make_error(spec, path=None):
         return ValueError("I/O operation on closed file.")
     if err == "TIMEOUT":
         return TimeoutError("simulated timeout")
+    if err == "TYPE":
+        return TypeError("a bytes-like object is required, not 'str'")
+    if err == "ATTR":
+        return AttributeError("'Stream' object has no attribute 'flush'")
+    if err == "RUNTIME":
+        return RuntimeError("simulated stream failure")
+    if err == "PIPE":
+        return BrokenPipeError(errno.EPIPE, os.strerror(errno.EPIPE))
     return OSError(errno.EIO, "simulated I/O error", path)
 
 
@@ -71,6 +80,7 @@ class World:
         self.clock_offset = 0.0
         self.steps = None        # set by steps.StepClock
         self.listdir_perm = None  # optional permutation seed (buggify)
+        self.mtimes = {}         # virtual path -> simulated mtime
 
     # -- paths ------------------------------------------------------------
     def real(self, vpath):
@@ -85,6 +95,11 @@ class World:
         if vpath.startswith(VROOT + "/"):
             return self.root + vpath[len(VROOT):]
         if vpath.startswith(self.root + "/") or vpath == self.root:
+            return vpath
+        if vpath.startswith(SUT_SRC + "/"):
+            # the interpreter's own package directory (bundled modules) is
+            # part of the world as it is; every other absolute path of the
+            # host is not
             return vpath
         return self.root + "/_outside" + vpath
 
@@ -112,6 +127,14 @@ class World:
                                                   "newline": ""}
         with open(r, mode, **kw) as f:
             f.write(data)
+        self.touch(vpath)
+
+    def touch(self, vpath):
+        """the file's simulated modification time becomes 'now'"""
+        self.mtimes[self.norm(vpath)] = self.now_ts()
+
+    def mtime(self, vpath):
+        return self.mtimes.get(self.norm(vpath), self.t0)
 
     def put_dir(self, vpath):
         os.makedirs(self.real(vpath), exist_ok=True)
@@ -328,6 +351,70 @@ class SimIn:
         self.world.log("inclose", self.name)
 
 
+class SimTextIn:
+    """stdin-like object with the *Python text stream* API (read, readline,
+    readlines, iteration, close) instead of the protocol ValueInput
+    expects; hosts may try to pass such a stream to setStandardInput"""
+
+    def __init__(self, world, text, name="stdin"):
+        self.world = world
+        self.name = name
+        self.data = text
+        self.pos = 0
+        self.closed = False
+
+    def _site(self):
+        f = self.world.hit("in.read", self.name)
+        if f is not None:
+            if f.get("err") == "EOF":
+                self.pos = len(self.data)
+                return
+            raise make_error(f, self.name)
+        if self.closed:
+            raise ValueError("I/O operation on closed file.")
+
+    def read(self, n=-1):
+        self._site()
+        if n is None or n < 0:
+            out = self.data[self.pos:]
+            self.pos = len(self.data)
+        else:
+            out = self.data[self.pos:self.pos + n]
+            self.pos += len(out)
+        self.world.log("in", self.name, out)
+        return out
+
+    def readline(self, *a):
+        self._site()
+        i = self.data.find("\n", self.pos)
+        if i == -1:
+            out = self.data[self.pos:]
+            self.pos = len(self.data)
+        else:
+            out = self.data[self.pos:i + 1]
+            self.pos = i + 1
+        self.world.log("in", self.name, out)
+        return out
+
+    def readlines(self, *a):
+        out = []
+        while True:
+            ln = self.readline()
+            if not ln:
+                return out
+            out.append(ln)
+
+    def __iter__(self):
+        return iter(self.readlines())
+
+    def readable(self):
+        return True
+
+    def close(self):
+        self.closed = True
+        self.world.log("inclose", self.name)
+
+
 # ------------------------------------------------------------------------
 # file objects
 
@@ -389,6 +476,7 @@ class SimFile:
         finally:
             w.in_proxy -= 1
         w.log("fswrite", self._vpath, len(s))
+        w.touch(self._vpath)
         return n
 
     def writelines(self, lines):
@@ -510,7 +598,7 @@ class PathProxy:
 
     def getmtime(self, p):
         OsProxy._meta(self.w, "getmtime", p, os.path.getmtime)
-        return self.w.t0
+        return self.w.mtime(p)
 
     def expanduser(self, p):
         if p == "~":
@@ -537,11 +625,13 @@ class SimStat:
     """a stat result whose timestamps come from the simulated clock (the
     backing files carry the host's real times, which must never be seen)"""
 
-    def __init__(self, world, st):
+    def __init__(self, world, st, vpath=None):
         self._st = st
-        self.st_mtime = self.st_ctime = self.st_atime = world.t0
-        self.st_mtime_ns = self.st_ctime_ns = self.st_atime_ns = \
-            int(world.t0) * 10**9
+        mt = world.mtime(vpath) if vpath is not None else world.t0
+        self.st_mtime = mt
+        self.st_ctime = self.st_atime = world.t0
+        self.st_mtime_ns = int(mt * 10**9)
+        self.st_ctime_ns = self.st_atime_ns = int(world.t0) * 10**9
         self.st_ino = 0
         self.st_dev = 0
 
@@ -577,11 +667,11 @@ class OsProxy:
 
     def lstat(self, p):
         return SimStat(self.w, self._meta(self.w, "lstat", p, os.lstat,
-                                          site="fs.stat"))
+                                          site="fs.stat"), p)
 
     def stat(self, p):
         return SimStat(self.w, self._meta(self.w, "stat", p, os.stat,
-                                          site="fs.stat"))
+                                          site="fs.stat"), p)
 
     def listdir(self, p="."):
         r = self._meta(self.w, "listdir", p, os.listdir)
